@@ -174,6 +174,21 @@ func specialScenarios() []specialScenario {
 		absLog{{Date: "2021/01/24", Entries: []absIng{{"porridge", 1}, {"tea", 2}}}, {Date: "2021/01/25", Entries: []absIng{{"tea", 1}}}})
 	add("element-that-is-also-a-food", true, bookPlus(absRecipe{"toast", []absIng{{"r1", 1}, {"butter", 0.5}}}, absRecipe{"butter", []absIng{{"fat", 8}}}),
 		logPlus([]absIng{{"toast", 1}, {"butter", 0.25}, {"fat", 1}}, []absIng{{"cal", 2}, {"toast", 2}}))
+	// ---- spellings of a number: the same quantities written with a leading point, a trailing point, a plus sign, an
+	// exponent, trailing zeros, leading zeros (in the log and in the book)
+	{
+		sp := func(name string, v float64, text string) absIng {
+			i := absIng{name, v}
+			ingText[i] = text
+			return i
+		}
+		add("quantities-spelt-unusually", true, bookPlus(absRecipe{"spelt/recipe", []absIng{sp("cal", 0.5, ".5"), sp("fat", 5, "5."), sp("prot", 4, "+4"), sp("salt", 0.25, "2.5e-1"), sp("fibre", 1.5, "1.50"), sp("sugar", 7, "007")}}),
+			logPlus([]absIng{sp("spelt/leading-point", 0.5, ".5"), sp("spelt/recipe", 2, "2."), sp("spelt/plus", 4, "+4.0")}, []absIng{sp("spelt/exponent", 250, "2.5e2"), sp("spelt/negative-point", -0.5, "-.5"), sp("spelt/recipe", 0.25, ".25"), sp("spelt/zeros", 3, "03.00")}))
+	}
+	// ---- names next to other names: an unknown food that differs from recipes of the book only in its last segment (two
+	// equally close recipes of equal length), in case, or by a blank next to a separator; names that begin with = + @
+	add("names-near-misses-of-recipes", true, bookPlus(absRecipe{"bread/rye/100g", []absIng{{"cal", 2}}}, absRecipe{"bread/rye/loaf", []absIng{{"cal", 8}}}, absRecipe{"coffee/cup", []absIng{{"cal", 1}}}, absRecipe{"coffee/mug", []absIng{{"cal", 2}}}),
+		logPlus([]absIng{{"bread/rye/slice", 1}, {"coffee", 2}, {"Coffee/cup", 1}, {"coffee /cup", 2}}, []absIng{{"coffee/cup", 1}, {"tea/green /large", 4}, {"tea / x", 1}, {"bread/rye/100G", 1}, {"=water", 1}, {"+vitamin c", 2}, {"@mg", 1}}))
 	// ---- size (beyond any "small input" shortcut a command might take: more than 64, 128, 256 days or recipes)
 	{
 		var lg absLog
